@@ -129,6 +129,10 @@ def run_case(case, ctx):
         args, kwds = (box,), {}
     elif case['use_args'] == 1:
         args, kwds = (a,), {}
+    elif case['seed'] % 4 == 2:
+        # every extra parameter by keyword, none positionally
+        args, kwds = (), (dict(a=a, b=b) if case['seed'] % 8 == 2 else dict(b=b))
+        ctx.count('extra_parameters_by_keyword_only')
     else:
         args, kwds = (a,), dict(b=b)
         kwname = ['b', 'b', 'step', 'method', 'order', 'n', 'full_output', 'richardson_terms'][(case['seed'] // 3) % 8]
